@@ -96,6 +96,45 @@ def h_shadow(a, b):
     x = x + y
     return x
 
+def h_try_rest(a):
+    try:
+        if a == 1:
+            return ev(('direct', a))
+        if a == 2:
+            raise Err('two')
+        ev(('body-end', a))
+    except Err:
+        if a == 2:
+            ev(('handled', a))
+        else:
+            raise
+    ev(('rest', a))
+    if a == 3:
+        raise Err('three')       # must not be caught by the handler above
+    return None
+
+def h_try_ret(a):
+    try:
+        if a == 2:
+            raise Err('two')
+        return ev(('direct', a))
+    except Err:
+        ev(('handled', a))
+    ev(('rest', a))
+    return None
+
+def h_try_norets(a):
+    x = 0
+    try:
+        if a == 2:
+            raise Err('two')
+        x = ev(('body', a))
+    except Err:
+        ev(('handled', a))
+    if a == 3:
+        return 'three'
+    return x
+
 def h_rng(a, b):
     xs = a + 1
     if b > 2:
@@ -255,6 +294,21 @@ def c_closure(a, b):
     r = h_closure([a, b, x], a + b)
     return add, x, r
 
+def c_try_rest(a):
+    r = h_try_rest(a)
+    ev('after')
+    return r
+
+def c_try_ret(a):
+    r = h_try_ret(a)
+    ev('after')
+    return r
+
+def c_try_norets(a):
+    r = h_try_norets(a)
+    ev('after')
+    return r
+
 def c_ifexp(a, b):
     v = h_expr(a, b) if a else h_expr(b, a)
     return v
@@ -311,7 +365,7 @@ def main():
         'c_cond': itertools.product(vals, vals), 'c_ifexp': itertools.product(vals, vals), 'c_in_loop': [([1, 2, 3, 4],), ([],)],
         'c_meth': itertools.product(vals, vals), 'c_set': itertools.product(vals, vals), 'c_cond2': itertools.product(vals, vals),
         'c_reset': itertools.product(vals, vals), 'c_while': [(v,) for v in vals], 'c_rng': itertools.product(vals, vals),
-        'c_rng_swapped': itertools.product(vals, vals), 'c_closure': itertools.product(vals, vals), 'c_rng_self': itertools.product(vals, vals),
+        'c_rng_swapped': itertools.product(vals, vals), 'c_closure': itertools.product(vals, vals), 'c_try_rest': [(v,) for v in vals], 'c_try_ret': [(v,) for v in vals], 'c_try_norets': [(v,) for v in vals], 'c_rng_self': itertools.product(vals, vals),
     }
     bad = 0
     n = 0
@@ -330,7 +384,7 @@ def main():
     print('%d executions compared, %d mismatches' % (n, bad))
     # every form must actually have been exercised
     want = {'h_pred', 'h_expr', 'h_stmt', 'h_none', 'h_search', 'h_all', 'h_any', 'h_try', 'h_with', 'h_kw', 'h_default', 'h_nested', 'h_shadow',
-            'K._m', 'K._set', 'K._reset_then', 'h_rng', 'h_closure'}
+            'K._m', 'K._set', 'K._reset_then', 'h_rng', 'h_closure', 'h_try_ret', 'h_try_norets'}
     missing = want - set(inl)
     if missing:
         print('NOT EXERCISED: %s' % sorted(missing))
